@@ -12,6 +12,8 @@ use std::time::{Duration, Instant};
 
 const HANG_SUSPECT_MS: u64 = 20_000;
 const HANG_CONFIRM_S: u64 = 120;
+/// CPU seconds one case may consume in its solo re-run before it is reported as `hang:`
+const HANG_CPU_S: u64 = 45;
 const EXIT_HANG_SUSPECT: i32 = 42;
 const MAX_RESPAWNS: usize = 12;
 const WORKER_STACK: usize = 2 << 20;
@@ -229,11 +231,37 @@ fn run_single(
                     let _ = child.wait();
                     return (None, String::new());
                 }
+                // CPU time is independent of how loaded the machine is: one case that burns more
+                // than HANG_CPU_S seconds of processor time (typical cases: milliseconds) is out of
+                // proportion to its input whatever the wall clock says
+                if let Some(cpu) = proc_cpu_seconds(child.id()) {
+                    if cpu > HANG_CPU_S as f64 {
+                        let _ = child.kill();
+                        let _ = child.wait();
+                        return (None, format!("cpu:{:.0}", cpu));
+                    }
+                }
                 std::thread::sleep(Duration::from_millis(50));
             }
             Err(_) => return (None, String::new()),
         }
     }
+}
+
+/// user + system CPU time of a process in seconds (from /proc/<pid>/stat), all threads
+fn proc_cpu_seconds(pid: u32) -> Option<f64> {
+    let st = std::fs::read_to_string(format!("/proc/{}/stat", pid)).ok()?;
+    let rest = &st[st.rfind(')')? + 1..];
+    let f: Vec<&str> = rest.split_whitespace().collect();
+    // after the command name: state is f[0]; utime and stime are fields 14 and 15 of the line,
+    // i.e. f[11] and f[12] here
+    let ut: f64 = f.get(11)?.parse().ok()?;
+    let stt: f64 = f.get(12)?.parse().ok()?;
+    let hz = unsafe { libc::sysconf(libc::_SC_CLK_TCK) } as f64;
+    if hz <= 0.0 {
+        return None;
+    }
+    Some((ut + stt) / hz)
 }
 
 pub struct Outcome {
@@ -274,6 +302,7 @@ pub fn run_parent(prop: &'static dyn Property, tier: Tier, seed: u64) -> Outcome
     let mut inconclusive: Vec<String> = Vec::new();
     let mut slow_cases: Vec<String> = Vec::new();
     let mut confirmed_hangs: std::collections::HashMap<u64, u32> = std::collections::HashMap::new();
+    let mut hang_reruns: std::collections::HashMap<u64, u32> = std::collections::HashMap::new();
 
     let replay_dir = PathBuf::from(format!("{}/replays/{}", known::verif_root(), id));
 
@@ -334,11 +363,14 @@ pub fn run_parent(prop: &'static dyn Property, tier: Tier, seed: u64) -> Outcome
                         Some(m) if m.state == 1 || m.state == 3 => {
                             let (ord, idx) = (m.section_ord, m.index);
                             let hang = code == Some(EXIT_HANG_SUSPECT) || m.state == 3;
-                            if hang && confirmed_hangs.get(&ord).copied().unwrap_or(0) >= 2 {
+                            if hang {
+                                *hang_reruns.entry(ord).or_insert(0) += 1;
+                            }
+                            if hang && (confirmed_hangs.get(&ord).copied().unwrap_or(0) >= 2 || hang_reruns[&ord] > 10) {
                                 // this section already has two confirmed hangs (the run fails
                                 // anyway): do not spend another HANG_CONFIRM_S on every suspect
                                 slow_cases.push(format!(
-                                    "section {} index {}: further hang suspect, not re-confirmed (section already has confirmed hangs)",
+                                    "section {} index {}: further hang suspect, not re-run alone (section already has confirmed hangs or more than 10 suspects)",
                                     ord, idx
                                 ));
                             } else if hang {
@@ -358,10 +390,17 @@ pub fn run_parent(prop: &'static dyn Property, tier: Tier, seed: u64) -> Outcome
                                         *confirmed_hangs.entry(ord).or_insert(0) += 1;
                                         let f = super::Fail::new(
                                             format!("hang:section{}", ord),
-                                            format!(
-                                                "case (section {}, index {}) did not terminate within {} s when run alone",
-                                                ord, idx, HANG_CONFIRM_S
-                                            ),
+                                            if info.starts_with("cpu:") {
+                                                format!(
+                                                    "case (section {}, index {}) consumed more than {} s of CPU time when run alone (out of proportion: typical cases take milliseconds)",
+                                                    ord, idx, HANG_CPU_S
+                                                )
+                                            } else {
+                                                format!(
+                                                    "case (section {}, index {}) did not terminate within {} s when run alone",
+                                                    ord, idx, HANG_CONFIRM_S
+                                                )
+                                            },
                                         );
                                         extra_violations.push(origin_violation(&replay_dir, id, tier, seed, ord, idx, &f));
                                     }
